@@ -273,7 +273,7 @@ func (p *Printer) emit(t *T) {
 			// injectivity against digests of concrete messages
 			for _, cd := range ConcreteMD5 {
 				if len(cd.Msg) != len(t.Args) {
-					fmt.Fprintf(b, "(assert (distinct md5_%d %s))\n", k, digestLit(cd.Digest))
+					// different lengths: distinct digests; left out (weaker, still sound) to keep queries small
 					continue
 				}
 				var eqs []string
